@@ -223,3 +223,29 @@ package internal
 //@ frame fswrite internal.(*generator).resetMagicTokens #1 output-path: intermediate write of the same file
 //@ frame fswrite internal.(*generatorv2).GenerateFile #1 temp-file-on-error-path: debugging aid when the generated text does not parse
 //@ frame fswrite internal.(*generatorv2).GenerateFile #2 output-path: modifier mode
+
+// ---------------------------------------------------------------------------
+// C14, cycles: the search starts from every dependency edge of every function
+// (Dependencies includes the predicate's sentinel type, so edges through
+// predicates are covered), the recursion follows every dependency of the
+// provider with the path extended by the current entry, and a type is memoised
+// as cycle-free only after all of them were searched.
+
+//@ func findFlowCycles
+//@   option props=[C13]
+//@   ghost nsearch int = 0
+//@   requires f != nil && visited != nil && fset != nil
+//@   requires funcs-non-nil: forall(i, int, implies(0 <= i && i < len(f.Funcs), f.Funcs[i] != nil && f.Funcs[i].Node != nil))
+//@   loop 2 invariant [C14] every-dependency-edge-so-far-was-searched: 0 <= idx2 && idx2 <= len(t.Dependencies)
+//@   at call findFlowCyclesForFunc 1 pre assert [C14] search-starts-from-each-dependency-edge: arg0 == f && len(arg1) == 0 && arg2 == t.Dependencies[idx2] && arg3 == visited
+
+//@ func findFlowCyclesForFunc
+//@   option props=[C13]
+//@   ghost nsearch int = 0
+//@   requires f != nil && visited != nil && fset != nil
+//@   requires funcs-non-nil: forall(i, int, implies(0 <= i && i < len(f.Funcs), f.Funcs[i] != nil && f.Funcs[i].Node != nil))
+//@   at call At 1 assume provider-index-in-range: implies(typeof(ret) == typeid("int"), 0 <= dataof(ret) && dataof(ret) < len(f.Funcs))
+//@   loop 2 invariant [C14] dependencies-searched-so-far: nsearch == idx2 && 0 <= idx2 && idx2 <= len(fn.Dependencies)
+//@   at call findFlowCyclesForFunc 1 pre assert [C14] recursion-follows-each-dependency-with-the-extended-path: arg0 == f && arg2 == fn.Dependencies[idx2] && arg3 == visited && len(arg1) == len(path) + 1 && arg1[len(path)].Type == t && arg1[len(path)].Func == fn
+//@   at call findFlowCyclesForFunc 1 ghost nsearch = nsearch + 1
+//@   at call Set 1 pre assert [C14] memoised-only-after-every-dependency-was-searched: nsearch == len(fn.Dependencies) && arg1 == t
